@@ -3,7 +3,7 @@
 P="$1"; shift
 cd /repo || exit 3
 if ! git apply --check "$P" 2>/dev/null; then
-  if ! git apply --3way "$P" 2>/dev/null; then echo "PATCH DOES NOT APPLY: $P"; git checkout -- . ; exit 4; fi
+  if ! git apply --3way "$P" 2>/dev/null; then echo "PATCH DOES NOT APPLY: $P"; git reset -q; git checkout HEAD -- . ; exit 4; fi
   git reset -q
 else
   git apply "$P"
